@@ -7,6 +7,15 @@ Definition get_follower (n : node) (id : nid) : fstate :=
   match lookup id (n_followers n) with Some f => f | None => fstate0 end.
 Definition set_follower (n : node) (id : nid) (f : fstate) : node :=
   n <| n_followers ::= put id f |>.
+(* the follower object a goroutine captured before its RPC: r.followers[id] if that is still the same
+   object, otherwise the replaced one *)
+Definition fobj (n : node) (id : nid) (gen : N) : fstate :=
+  let f := get_follower n id in
+  if f_gen f =? gen then f else
+  match find (fun o => f_gen o =? gen) (n_orphans n) with Some o => o | None => f end.
+Definition set_fobj (n : node) (id : nid) (gen : N) (f : fstate) : node :=
+  if f_gen (get_follower n id) =? gen then set_follower n id f
+  else n <| n_orphans ::= map (fun o => if f_gen o =? gen then f else o) |>.
 
 Definition new_round (n : node) (stamp : N) : node * N :=
   let id := n_next_round n in
@@ -51,7 +60,12 @@ Definition become_leader (now : N) (n : node) : node :=
 (* sendRequestVoteToPeers *)
 Definition send_rv_to_peers (now : N) (n : node) : node :=
   let c := conf_of n in
-  if is_single c (n_id n) then become_leader now n else
+  if is_single c (n_id n) then
+    (* fix: D21 - no votes are needed, but the leadership still gets a term of its own (becomeCandidate) *)
+    let n0 := n <| n_role := Candidate |> in
+    become_leader now (if role_eqb (n_role n) PreCandidate
+                       then persist (n0 <| n_term := N.succ (n_term n0) |> <| n_vote := Some (n_id n0) |>) else n)
+  else
   let (n1, rid) := new_round n 0 in
   let prevote := role_eqb (n_role n1) PreCandidate in
   n1 <| n_tasks ::= fun t => t ++ map (fun id => TRv rid id prevote)
@@ -111,15 +125,15 @@ Definition l_is_send (n : node) (peer : nid) : node * option is_req :=
   end.
 
 (* sendInstallSnapshot after the RPC; [resp = None] is a transport error *)
-Definition l_is_reply (now : N) (n : node) (peer : nid) (q : is_req) (resp : option is_resp) : node :=
-  let f := get_follower n peer in
+Definition l_is_reply (now : N) (n : node) (peer : nid) (gen : N) (q : is_req) (resp : option is_resp) : node :=
+  let f := fobj n peer gen in
   match f_snap f, resp with
   | None, _ | _, None => n
   | Some (s, _), Some p =>
       if n_term n <? isr_term p then become_follower now n peer (isr_term p) else
-      if negb (isr_written p =? is_offset q) then set_follower n peer (f <| f_snap := Some (s, isr_written p) |>) else
+      if negb (isr_written p =? is_offset q) then set_fobj n peer gen (f <| f_snap := Some (s, isr_written p) |>) else
       if negb (is_done q) then n else
-      set_follower n peer {| f_next := is_lii q + 1; f_match := is_lii q; f_snap := None |}
+      set_fobj n peer gen {| f_next := is_lii q + 1; f_match := is_lii q; f_snap := None; f_gen := gen |}
   end.
 
 Inductive sent := SentNothing | SentAE (q : ae_req) | SentIS (q : is_req).
@@ -147,21 +161,24 @@ Definition l_ae_send (n : node) (peer : nid) : node * sent :=
                 ae_prev_term := prev_term; ae_entries := log_from l (n_lii n) nx |}).
 
 (* sendAppendEntries after the RPC returned a response; may go on to send a snapshot *)
-Definition l_ae_reply (now : N) (n : node) (rid : N) (peer : nid) (q : ae_req) (p : ae_resp) : node * option is_req :=
+Definition l_ae_reply (now : N) (n : node) (rid : N) (peer : nid) (gen : N) (q : ae_req) (p : ae_resp) : node * option is_req :=
   if negb (is_member (conf_of n) peer) || negb (role_eqb (n_role n) Leader) then (n, None) else
   if n_term n <? aer_term p then (become_follower now n peer (aer_term p), None) else
   (* fix: D1 - a reply to a request of an earlier term is ignored *)
   if negb (ae_term q =? n_term n) then (n, None) else
-  let n1 := bump_round n rid in
-  let n2 := if has_quorum (conf_of n1) (round_count n1 rid) then try_apply_ro now n1 (round_stamp n1 rid) else n1 in
-  let f := get_follower n2 peer in
+  (* fix: D5 - only the responses of voting members count towards the confirmation of leadership *)
+  let n1 := if is_voter (conf_of n) peer then bump_round n rid else n in
+  let n2 := if is_voter (conf_of n) peer && has_quorum (conf_of n1) (round_count n1 rid)
+            then try_apply_ro now n1 (round_stamp n1 rid) else n1 in
+  let f := fobj n2 peer gen in
   if negb (aer_success p) then
-    let n3 := set_follower n2 peer (f <| f_next := aer_index p |>) in
+    let n3 := set_fobj n2 peer gen (f <| f_next := aer_index p |>) in
+    (* sendInstallSnapshot reads r.followers[id] again *)
     if aer_index p <=? n_lii n3 then l_is_send n3 peer else (n3, None)
   else
   let top := ae_prev_index q + N.of_nat (length (ae_entries q)) in
   if f_match f <? top then
-    let n3 := set_follower n2 peer (f <| f_next := N.max (f_next f) (top + 1) |> <| f_match := top |>) in
+    let n3 := set_fobj n2 peer gen (f <| f_next := N.max (f_next f) (top + 1) |> <| f_match := top |>) in
     ((if n_commit n3 <? top then signal_commit n3 else n3), None)
   else (n2, None).
 
@@ -322,7 +339,7 @@ Definition api_add_server (now : N) (n : node) (fid : N) (id : nid) (voter : boo
   let c := conf_of n in
   if is_member c id && Bool.eqb (is_voter c id) voter then respond n fid (FConf c) else
   let (n1, c') := append_configuration n {| c_index := 0; c_members := put id voter (c_members c) |} in
-  let n2 := set_follower (n1 <| n_conf := Some c' |> <| n_cfg_fid := Some fid |>) id {| f_next := 1; f_match := 0; f_snap := None |} in
+  let n2 := new_follower (n1 <| n_conf := Some c' |> <| n_cfg_fid := Some fid |>) id 1 in
   send_ae_to_peers now n2.
 
 Definition api_remove_server (now : N) (n : node) (fid : N) (id : nid) : node :=
@@ -372,7 +389,7 @@ Definition restore (n : node) : node :=
 (* process death: volatile state is gone, tmp snapshot removed by the constructors *)
 Definition crash (n : node) : node :=
   n <| n_role := Shutdown |> <| n_commit := 0 |> <| n_applied := 0 |> <| n_lii := 0 |> <| n_lit := 0 |>
-    <| n_conf := None |> <| n_cconf := None |> <| n_leader := None |> <| n_followers := [] |>
+    <| n_conf := None |> <| n_cconf := None |> <| n_leader := None |> <| n_followers := [] |> <| n_orphans := [] |>
     <| n_pending := [] |> <| n_ro := [] |> <| n_should_verify := true |> <| n_cfg_fid := None |> <| n_lease := 0 |> <| n_contact := 0 |>
     <| n_rounds := [] |> <| n_tasks := [] |> <| n_cv := conds0 |> <| n_iswait := [] |> <| n_fsm := [] |>
     <| n_partial := None |> <| n_budget := None |> <| n_frozen := false |> <| n_applies := [] |>
@@ -382,8 +399,7 @@ Definition crash (n : node) : node :=
 Definition api_start (now : N) (n : node) : node :=
   if negb (role_eqb (n_role n) Shutdown) then n else
   let c := conf_of n in
-  n <| n_conf := Some c |>
-    <| n_followers := fold_left (fun fs id => put id fstate0 fs) (member_ids c) [] |>
+  (fold_left (fun m id => new_follower m id 0) (member_ids c) (n <| n_conf := Some c |> <| n_followers := [] |>))
     <| n_contact := now |> <| n_role := Follower |>.
 
 (* NewRaft over the directory after a process death, then Start *)
